@@ -6,7 +6,7 @@
    whether that was assigned by this incarnation or by an earlier one.
    Wiring (main.go lists nodes, constructs, starts informers, runs): gen/C03_current.v from translator facts.
    Outside the theorem's universe (monitored): tombstones, relists, nodes marked deleting, pre-set pod CIDRs. *)
-From NIPAM Require Import Sys Alloc_proofs Sys_proofs Hist_proofs Hist2_proofs Hist3_proofs Hist4_proofs.
+From NIPAM Require Import Sys Alloc_proofs Sys_proofs Hist_proofs Hist2_proofs Hist3_proofs Hist4_proofs Inv_proofs Just_proofs.
 Open Scope N_scope.
 
 (* a crash keeps the API objects and forgets everything else *)
@@ -54,3 +54,17 @@ Theorem C03_assignments_survive_restarts_tombstones_and_relists :
   forall n1 c1 n2 c2, holder w n1 c1 -> holder w n2 c2 -> n1 <> n2 -> overlapb c1 c2 = false.
 Proof. exact no_overlap_with_tombstones_and_relists. Qed.
 Print Assumptions C03_assignments_survive_restarts_tombstones_and_relists.
+
+(* "resurrects none": right after construction every block in use in any pool overlaps a configured service range or a pod
+   CIDR of one of the listed nodes -- nothing the previous incarnation had reserved (tentative blocks, blocks of nodes that
+   were deleted while the controller was down, leaks) survives unless the API objects justify it *)
+Theorem C03_construction_resurrects_nothing :
+  forall po lab ccs outs s1 s2 nodes m fx pan,
+  Forall good_obj ccs -> Forall wf_node nodes ->
+  (forall s, s1 = Some s -> wf_cidr s) -> (forall s, s2 = Some s -> wf_cidr s) ->
+  construct po lab ccs outs s1 s2 nodes = (m, fx, pan) ->
+  forall e, In e (all_entries m) -> forall f pl, pool_of e f = Some pl -> forall b, In b (used pl) ->
+  (exists s, (s1 = Some s \/ s2 = Some s) /\ overlap b s) \/
+  (exists n c cn, In n nodes /\ In (PGood c cn) (n_cidrs n) /\ overlap b c).
+Proof. exact construct_resurrects_nothing. Qed.
+Print Assumptions C03_construction_resurrects_nothing.
